@@ -109,6 +109,12 @@ def corruptions():
     add("sr: a clone of the parsed value differs from it", "sr", ["C09"], op_is("parse", kind="sr"), lambda e: e["res"].__setitem__("clone_same", False))
     add("bye: last() of the source iterator", "bye", ["C04", "C09"], op_is("parse", kind="bye"),
         lambda e: e["res"]["view"]["ssrcs_alt"].__setitem__("last", []))
+    add("bye: count() on the source iterator itself after one next()", "bye", ["C04", "C09"], op_is("parse", kind="bye"),
+        lambda e: e["res"]["view"]["ssrcs_alt"]["lastd"][1].__setitem__(2, e["res"]["view"]["ssrcs_alt"]["lastd"][1][2] + 1))
+    add("sr: last() on the block iterator itself", "sr", ["C02", "C09"], op_is("parse", kind="sr"),
+        lambda e: e["res"]["view"]["blocks_alt"]["lastd"][0].__setitem__(1, []))
+    add("all: conversion error names another actual type", "all", ["C12", "C18"], op_is("parse_all"),
+        lambda e: e["res"]["view"]["conv"]["bye"]["f"].__setitem__(0, 203))
     add("bye: unchecked write returns another size", "bye", ["C06", "C07", "C20"], op_is("write_unchecked"),
         lambda e: e["res"].__setitem__("n", e["res"]["n"] - 4))
     add("bye: unchecked write leaves a byte of the reused image", "bye", ["C07", "C20"], op_is("write_unchecked"),
